@@ -44,7 +44,7 @@ def cacheRunOp : H := fun j => do
   let s0 : Cache.St := ⟨tmp0.toList, false⟩
   let replay := tr.foldl Cache.apply s0
   if kind == "object" then
-    match Cache.matchObject tr raised with
+    match Cache.matchObject s0 tr raised with
     | some (f, inner, fl) =>
       let r := Cache.objectCall s0 f inner fl
       return Json.mkObj [("isRun", true), ("f", jNat f), ("nInner", jNat inner.length), ("fault", jFault fl),
